@@ -92,6 +92,17 @@ def obligations(tier, rng):
         g = atoms_subst(f)
         for N in ([3] if quick else [2, 3, 4]):
             out.append(ob('C20', 'explain', 'F2/%s/N=%d' % (text(g), N), f=g, N=N, max_paths=40000, wall=900))
+    # the same variable under two temporal operators with different (nested / overlapping) windows
+    G1, G2 = ('gt', X, ('const', 0.0)), ('gt', X, ('const', 1.0))
+    tops = [('eventually_t', 0, 5), ('always_t', 2, 3), ('eventually_t', 1, 2), ('always_t', 0, 4), ('once_t', 0, 1), ('historically_t', 0, 2),
+            ('eventually', None, None), ('always', None, None)]
+    for i, (k1, a1, b1) in enumerate(tops):
+        for (k2, a2, b2) in tops[i + 1:]:
+            l = (k1, G1, a1, b1) if a1 is not None else (k1, G1)
+            r = (k2, G2, a2, b2) if a2 is not None else (k2, G2)
+            for c in ('or', 'and') + (() if quick else ('implies',)):
+                f = (c, l, r)
+                out.append(ob('C20', 'explain', 'dup/%s/N=%d' % (text(f), 6), f=f, N=6, max_paths=40000, wall=600))
     if not quick:
         for i in range(200):
             f = refsem.gen_formula(rng, 3, ops, [(0, 1), (1, 2)], ('x', 'y'))
